@@ -113,3 +113,6 @@ def run(ctx, proofs_ok):
     apicheck.run_resp_streams(ctx, [
         {"label": "sorted-set commands over the network protocol (handlers: bounds with exclusive marks, LIMIT, option combinations) against the model", "fams": ['zs', 'zs', 'zs', 'keyspace'], "n": (2500, 8000), "count": (2, 16), "conns": 1},
     ])
+    # a second oracle that owes nothing to the model: the documented Redis semantics (bin/refredis.py)
+    from checks import refcheck
+    refcheck.run(ctx, "zzk", "sorted sets against the reference implementation of the documented semantics")
